@@ -38,6 +38,7 @@
 #include "stir/NumericType.h"
 #include "stir/ByteOrder.h"
 #include "stir/Scanner.h"
+#include <algorithm>
 #include <array>
 #include <cfloat>
 #include <climits>
@@ -390,6 +391,23 @@ make_values(const json& v, long n, int dataset)
       for (auto& x : r)
         x = float(g.range(neg ? -1000 : 0, 1000));
       break;
+    }
+  // data sets of one container that differ (domain audit AUD_B): every data set of a dynamic / parametric image gets its own
+  // scale factor (write_basic_interfile: "float scale_to_use = scale" per data set), which only shows when the data sets need
+  // different ones.  1: magnitudes two decades apart per data set, towards 1; 2: away from 1 (only while |exponent| <= 12, so
+  // that M*1e6 stays a normalised finite float); 3: the FIRST data set all zero (a frame before injection); 4: all but the first
+  // all zero.  Old cases have no "dspread" (= 0: all data sets of the same magnitude).
+  const int spread = v.value("dspread", 0);
+  if (spread == 3 ? dataset == 0 : (spread == 4 && dataset > 0))
+    std::fill(r.begin(), r.end(), 0.F);
+  else if ((spread == 1 || spread == 2) && dataset > 0)
+    {
+      const double e = EXPONENTS[v["exp"].get<int>() % N_EXPONENTS];
+      const bool away = spread == 2 && std::fabs(e) <= 12;
+      const double dir = ((e < 0) != away) ? 1. : -1.; // towards 1: up for small magnitudes, down for large ones
+      const double f = std::pow(10., dir * 2. * std::min(dataset, 3));
+      for (auto& x : r)
+        x = float(double(x) * f);
     }
   return r;
 }
@@ -795,7 +813,7 @@ check_file_level(const FileSet& fs, const std::vector<float>& v, const TInfo& t,
 long g_counter = 0;
 
 std::vector<long>
-truncation_lengths(long size, bool thorough_all)
+truncation_lengths(long size, bool thorough_all, int datasets_in_file)
 {
   std::vector<long> L;
   if (size <= 192 || thorough_all)
@@ -806,8 +824,15 @@ truncation_lengths(long size, bool thorough_all)
       const long stride = std::max<long>(64, size / 48);
       for (long l = 0; l < size - 64; l += stride)
         L.push_back(l);
+      // a file that holds exactly the first k of its data sets, one byte less and one byte more (domain audit AUD_B)
+      for (int k = 1; k < datasets_in_file; ++k)
+        for (long l = size / datasets_in_file * k - 1; l <= size / datasets_in_file * k + 1; ++l)
+          if (l > 0 && l < size - 64)
+            L.push_back(l);
       for (long l = size - 64; l < size; ++l)
         L.push_back(l);
+      std::sort(L.begin(), L.end());
+      L.erase(std::unique(L.begin(), L.end()), L.end());
     }
   return L;
 }
@@ -910,6 +935,16 @@ check(const json& c)
     stats().cls("negatives into unsigned type (documented truncation to 0)");
   if (es.en_kind == 2)
     stats().cls("energy window with lower level 0");
+  if (D > 1 && c["vals"].value("dspread", 0) != 0)
+    {
+      static const char* const sn[] = { "", "magnitudes two decades apart, towards 1", "magnitudes two decades apart, away from 1", "first data set all zero",
+                                        "all but the first data set all zero" };
+      stats().cls(cat("data sets differ: ", sn[c["vals"].value("dspread", 0) % 5]));
+    }
+  if (nv == 1)
+    stats().cls("grid: a single voxel");
+  else if (g.n[0] == 1 || g.n[1] == 1 || g.n[2] == 1)
+    stats().cls(cat("grid: size 1 along ", g.n[0] == 1 ? "z" : "", g.n[1] == 1 ? "y" : "", g.n[2] == 1 ? "x" : ""));
 
   // ---- write --------------------------------------------------------------------------------------------------------------
   const std::string base = cat(tmp_dir(), "/c10_", getpid(), "_", ++g_counter);
@@ -1030,6 +1065,25 @@ check(const json& c)
           else if (need > double(setting) * 1.001)
             stats().cls("fixed scale too small: raised by find_scale_factor");
         }
+      // The quantisation step itself (domain audit AUD_B: it used to be taken from the header the library wrote, so any step
+      // was "within half a step").  Documented: scale 0 -> "the output will be rescaled such that the maximum range of the
+      // output type of numbers is used" (OutputFileFormat.h, set_scale_to_write_data; convert_array.h: "the maximum range of T2
+      // is used"), and a fixed scale that does not fit -> "the same scale_factor is used as in the 0 case".  The harness's own
+      // statement: the step is at most 1.05 x (largest value / largest number of the type) (the library takes 1.01), unless that
+      // is below the smallest normalised float (documented lower bound of a non-zero scale factor).
+      if (t.is_int)
+        {
+          const double need0 = needed_scale(data[std::size_t(d)], t, t.tmax);
+          if (need0 > 0 && (setting == 0.F || need0 * 1.01 > double(setting) * 1.001))
+            {
+              const double hi = std::max(need0 * 1.05, double(FLT_MIN) * (1 + TOL_HDR));
+              if (need0 * 1.05 > double(FLT_MIN))
+                stats().maxi("automatic scale / (max value / type max)", S[std::size_t(d)] / need0);
+              stats().cls("scale: maximum range of the type demanded");
+              VF_CHECK(S[std::size_t(d)] <= hi, "data set ", d + 1, ": image scaling factor ", S[std::size_t(d)], " but the largest value needs only ", need0,
+                       " for type ", t.name, " (scale_to_write_data ", setting, "): the maximum range of the output type is not used");
+            }
+        }
     }
 
   // ---- read back ---------------------------------------------------------------------------------------------------------------
@@ -1125,7 +1179,7 @@ check(const json& c)
       std::vector<unsigned char> full;
       VF_CHECK(read_bytes(victim.data_file, full), "cannot re-read data file");
       const long size = long(full.size());
-      const std::vector<long> lengths = truncation_lengths(size, tr["mode"].get<int>() == 2);
+      const std::vector<long> lengths = truncation_lengths(size, tr["mode"].get<int>() == 2, multi ? 1 : D);
       long n_tried = 0;
       for (auto it = lengths.rbegin(); it != lengths.rend(); ++it)
         {
@@ -1293,6 +1347,19 @@ gen(Src& s, int size)
   // known finding F5 (work/notes/C10_findings.md), excluded by construction; VERIF_NO_EXCLUDE=1 switches this off
   if (!g_no_exclude && container == PAR_INTERFILE && type != T_FLOAT && c["exam"]["frames"].size() >= 2 && !s.chance(1, 4))
     c["exam"]["frames"].erase(c["exam"]["frames"].begin() + 1, c["exam"]["frames"].end()); // F5
+  // ---- domain audit AUD_B: boundaries the quantifier covers that the draws above (practically) never produce; drawn LAST so that
+  // the earlier part of the random stream is unchanged
+  // (a) the data sets of one container need different scale factors / one of them is all zero
+  if (container != SINGLE && s.chance(1, 3))
+    c["vals"]["dspread"] = int(s.range(1, 4));
+  // (b) degenerate grids: sizes are drawn from 1..12 per axis, so one voxel had probability 1/1728 and one plane / row / column ~8 %
+  if (s.chance(1, 20))
+    {
+      const int which = int(s.range(0, 4));
+      for (int a = 0; a < 3; ++a)
+        if (which == 0 || which == a + 1 || (which == 4 && a > 0))
+          c["grid"]["size"][a] = 1; // 0: one voxel, 1..3: one plane / row / column of voxels, 4: a single column along z
+    }
   return c;
 }
 
@@ -1422,6 +1489,46 @@ fixed_cases(int)
         c["fmt"]["scale_idx"] = 4;
         c["vals"]["kind"] = (type == T_UCHAR || type == T_USHORT || type == T_UINT || type == T_ULONG) ? 1 : 0;
         c["trunc"] = { { "mode", 2 }, { "file", type % 3 }, { "extra", 1 + type } };
+        v.push_back(c);
+      }
+  // domain audit AUD_B: data sets that need different scale factors, in every multi-data-set container, automatic and fixed scale
+  for (int cont = 1; cont < 5; ++cont)
+    for (int spread = 1; spread <= 4; ++spread)
+      for (int type : { int(T_SHORT), int(T_UCHAR), int(T_LONG), int(T_DOUBLE) })
+        {
+          json c = base_case();
+          c["container"] = cont;
+          fit_frames(c);
+          if (!g_no_exclude && cont == PAR_INTERFILE)
+            c["exam"]["frames"].erase(c["exam"]["frames"].begin() + 1, c["exam"]["frames"].end()); // F5
+          c["fmt"]["type"] = type;
+          c["fmt"]["big_endian"] = (spread + cont) % 2 == 0;
+          c["fmt"]["scale_mode"] = (spread + type) % 2;
+          c["fmt"]["scale_idx"] = 2 + spread; // relative factors 1.0, 1.02, 1.5, 4 of what the largest data set needs
+          c["vals"]["kind"] = type == T_UCHAR ? 1 : (spread % 2 ? 0 : 6);
+          c["vals"]["exp"] = 3 + spread;      // 1e-2, 1, 1, 10
+          c["vals"]["dspread"] = spread;
+          if (spread == 4)
+            c["trunc"] = { { "mode", 1 }, { "file", 1 }, { "extra", 3 } };
+          v.push_back(c);
+        }
+  // one voxel, one plane, one row, one column: every type
+  for (int type = 0; type < 10; ++type)
+    for (int shape = 0; shape < 4; ++shape)
+      {
+        json c = base_case();
+        c["container"] = (type + shape) % 5;
+        fit_frames(c);
+        if (!g_no_exclude && c["container"].get<int>() == PAR_INTERFILE)
+          c["exam"]["frames"].erase(c["exam"]["frames"].begin() + 1, c["exam"]["frames"].end()); // F5
+        for (int a = 0; a < 3; ++a)
+          if (shape == 0 || shape == a + 1)
+            c["grid"]["size"][a] = 1;
+        c["fmt"]["type"] = type;
+        c["fmt"]["big_endian"] = shape % 2 == 0;
+        c["vals"]["kind"] = (type == T_UCHAR || type == T_USHORT || type == T_UINT || type == T_ULONG) ? 1 : (shape == 0 ? 2 : 0);
+        if (type % 3 == 0) // every length of the (tiny) data file for four of the types
+          c["trunc"] = { { "mode", 2 }, { "file", 0 }, { "extra", 2 } };
         v.push_back(c);
       }
   return v;
